@@ -1,8 +1,9 @@
 import Kio.Proofs.GenSpec
 import Kio.Proofs.SpecEq
 import Kio.Gen.Supported
+import Kio.Proofs.GenCoherentInd
 /-!
-# C16: what the generator produces from a *supported* definition (statements)
+# C16: what the generator produces from a *supported* definition
 
 `Supported d v` (Kio/Gen/Supported.lean) is syntactic.  For every supported definition and version:
 * `module_coherent`: every generated class is coherent (`Schema.wf`, the hypothesis of C01–C10),
@@ -10,6 +11,15 @@ import Kio.Gen.Supported
   instances encode to exactly the bytes `Spec.enc` prescribes for the generated descriptor, whose
   fields are the definition's by `module_fields'`;
 * `module_defaults`: every field's default is the one the definition states (`DefSpec.expDefault`).
+
+The proofs are one induction over the generator (`gen_coh`, Kio/Proofs/GenCoherentInd.lean) with the
+invariant "every class generated so far is coherent and has the stated defaults" (`ClsOK`), the
+per-field lemmas of Kio/Proofs/GenCoherentOne.lean, and — for the alignment with the independent
+reading that `module_defaults` speaks about — the fact that a supported definition never yields two
+classes of the same name (`coh_module_nodup`, Kio/Proofs/GenCoherentNodup.lean).
+
+`module_defaults` is false without the condition `membersOk` of `Supported`
+(`module_defaults_needs_membersOk`, `module_defaults_needs_membersOk'` below).
 -/
 namespace Kio.Gen
 open Kio
@@ -18,13 +28,199 @@ theorem module_coherent (env : Env) (ht : env.time = TimeCfg.repaired)
     (d : MsgDef) (b : List (List Nat)) (v : Nat) (gs : List GClass)
     (hs : Supported d v = true) (h : module d b v = .ok gs) :
     ∀ g ∈ gs, g.schema.wf env = true ∧ g.schema.tagArrOk = true ∧ g.schema.fewFields = true := by
-  sorry
+  intro g hg
+  have := coh_module_clsOK ht hs h g hg
+  exact ⟨this.wf, this.tagArr, this.few⟩
+
+/-! ## the expected classes come from the structures of the definition -/
+
+/-- an expected class lists the visible fields of a structure of the definition of that name -/
+def coh_SrcOK (d : MsgDef) (b : List (List Nat)) (v : Nat) (e : DefSpec.ExpClass) : Prop :=
+  ∃ fs, (e.name, fs) ∈ d.structs ∧ e.fields = (visibleAt fs v).map (fun f => DefSpec.expField b f v)
+
+theorem coh_specSub_mem {d : MsgDef} {f : FieldDef} {rest : List FieldDef} {n : List Nat}
+    {fs : List FieldDef} (h : specSub d f = some (n, fs)) (hs : SubS d (f :: rest)) :
+    SubS d fs ∧ (n, fs) ∈ d.structs := by
+  have key : ∀ n', (f.ty = .struct n' ∨ f.ty = .structArr n') →
+      (match f.fields with
+       | some fs => some (n', fs)
+       | none => (d.commonStructs.find? (·.name == n')).map (fun cs => (n', cs.fields))) = some (n, fs) →
+      SubS d fs ∧ (n, fs) ∈ d.structs := by
+    intro n' hty h
+    cases hf : f.fields with
+    | some fs' =>
+      rw [hf] at h
+      simp only [Option.some.injEq, Prod.mk.injEq] at h
+      obtain ⟨rfl, rfl⟩ := h
+      exact ⟨hs.sub hf, hs.here hf hty⟩
+    | none =>
+      rw [hf] at h
+      simp only [Option.map_eq_some_iff, Prod.mk.injEq] at h
+      obtain ⟨cs, hcs, rfl, rfl⟩ := h
+      have hmem := List.mem_of_find?_eq_some hcs
+      have hname := find_cs_name hcs
+      rw [← hname]
+      exact ⟨SubS.cs hmem, coh_cs_mem hmem⟩
+  unfold specSub at h
+  split at h
+  · rename_i n' hty; exact key n' (Or.inl hty) h
+  · rename_i n' hty; exact key n' (Or.inr hty) h
+  · cases h
+
+theorem coh_structuresBelow_src (d : MsgDef) (b : List (List Nat)) (v : Nat) :
+    ∀ (fuel : Nat) (eacc : List DefSpec.ExpClass) (fs : List FieldDef), SubS d fs →
+      (∀ e ∈ eacc, coh_SrcOK d b v e) →
+      ∀ e ∈ DefSpec.structuresBelow d b v fuel eacc fs, coh_SrcOK d b v e := by
+  intro fuel
+  induction fuel with
+  | zero => intro eacc fs _ h; rw [DefSpec.structuresBelow]; exact h
+  | succ fuel ih =>
+    intro eacc fs hsub h
+    cases fs with
+    | nil => rw [DefSpec.structuresBelow]; exact h
+    | cons f rest =>
+      rw [structuresBelow_cons]
+      split
+      · exact ih _ _ hsub.rest h
+      · split
+        · exact ih _ _ hsub.rest h
+        · rename_i n fs' hss
+          obtain ⟨hsub', hmem'⟩ := coh_specSub_mem hss hsub
+          apply ih _ _ hsub.rest
+          unfold specClass
+          split
+          · exact h
+          · simp only
+            split
+            · exact ih _ _ hsub' h
+            · intro e he
+              rcases List.mem_append.1 he with he | he
+              · exact ih _ _ hsub' h e he
+              · simp only [List.mem_singleton] at he
+                subst he
+                exact ⟨fs', hmem', rfl⟩
+
+theorem coh_classesAt_src (d : MsgDef) (b : List (List Nat)) (v : Nat) :
+    ∀ e ∈ DefSpec.classesAt d b v, coh_SrcOK d b v e := by
+  intro e he
+  unfold DefSpec.classesAt at he
+  rcases List.mem_append.1 he with he | he
+  · exact coh_structuresBelow_src d b v _ [] _ (SubS.top d) (by simp) e he
+  · simp only [List.mem_singleton] at he
+    subst he
+    exact ⟨d.fields, coh_top_mem d, rfl⟩
 
 theorem module_defaults (d : MsgDef) (b : List (List Nat)) (v : Nat) (gs : List GClass)
     (hs : Supported d v = true) (h : module d b v = .ok gs) :
     ∀ (i : Nat) (g : GClass) (e : DefSpec.ExpClass), gs[i]? = some g → (DefSpec.classesAt d b v)[i]? = some e →
       ∀ (j : Nat) (f : Field) (ef : DefSpec.ExpField), g.schema.fields[j]? = some f → e.fields[j]? = some ef →
         dfltAgrees ef.dflt f = true := by
-  sorry
+  intro i g e hg he j f ef hf hef
+  -- a neutral environment: the defaults do not depend on it
+  let env : Env := ⟨[], TimeCfg.repaired, true, true⟩
+  have hcls := coh_module_clsOK (env := env) rfl hs h g (List.mem_of_getElem? hg)
+  have hnames := module_classes' d b v gs h (coh_module_nodup' hs h)
+  have hname : g.name = e.name := by
+    have h1 : (gs.map (·.name))[i]? = some g.name := by rw [List.getElem?_map, hg]; rfl
+    have h2 : ((DefSpec.classesAt d b v).map (·.name))[i]? = some e.name := by
+      rw [List.getElem?_map, he]; rfl
+    rw [hnames, h2] at h1
+    exact (Option.some.inj h1).symm
+  obtain ⟨fs, hmem, hfields⟩ := coh_classesAt_src d b v e (List.mem_of_getElem? he)
+  have hall : All2 (fun fd fld => dfltAgrees (DefSpec.expField b fd v).dflt fld = true)
+      (visibleAt fs v) g.schema.fields := hcls.dflt fs (by rw [hname]; exact hmem)
+  rw [hfields, List.getElem?_map, Option.map_eq_some_iff] at hef
+  obtain ⟨fd, hfd, rfl⟩ := hef
+  exact All2.get (R := fun fd fld => dfltAgrees (DefSpec.expField b fd v).dflt fld = true) hall hfd hf
 
 end Kio.Gen
+
+/-! ## `module_defaults` needs `membersOk` (kernel-checked by `decide`) -/
+namespace Kio.Gen.CounterCoh
+open Kio Kio.Gen
+
+/-- `Supported` without the condition `membersOk` -/
+def SupportedNoMembers (d : MsgDef) (v : Nat) : Bool :=
+  d.validVersions.matches v
+  && !isRequestHeaderName d.name
+  && decide d.structNames.Nodup
+  && structOk v false d.fields
+  && d.commonStructs.all (fun cs => structOk v true cs.fields && !isRequestHeaderName cs.name)
+  && d.everywhere (fun f => !f.versions.matches v || fieldOk d v f)
+
+def r0 : Option VRange := some (.mk 0 none)
+def S : List Nat := [83]
+def M : List Nat := [77]
+
+/-- a member with a default that is not visible in any version and does not parse (neither
+    `versions` nor `taggedVersions`) -/
+def gNoVersions : FieldDef := .mk [71] (.prim .int32) none none none none (some (strOf "0")) false none none
+/-- a tagged ignorable structure with that single member: the definition reads "all members have
+    defaults" (default: the structure of defaults), the generator does not (default: `None`) -/
+def fTagged : FieldDef := .mk [70] (.struct S) r0 none r0 (some 0) none true none (some [gNoVersions])
+def dMem : MsgDef := ⟨M, .data, none, .mk 0 (some 0), .mk 0 none, [fTagged], []⟩
+
+/-- a member of primitive-array type with an error-code name (visible from version 5 on): the
+    generator overwrites its type and counts it as a member with a default, the definition does not -/
+def gErrArr : FieldDef :=
+  .mk (strOf "ErrorCode") (.primArr .int16) (some (.mk 5 none)) none none none (some (strOf "0")) false none none
+def fTagged' : FieldDef := .mk [70] (.struct S) r0 none r0 (some 0) none true none (some [gErrArr])
+def dMem' : MsgDef := ⟨M, .data, none, .mk 0 (some 0), .mk 0 none, [fTagged'], []⟩
+
+theorem mem_supported : SupportedNoMembers dMem 0 = true := by decide
+theorem mem_disagree : defaultsAgree dMem [] 0 = false := by decide
+theorem mem_not_supported : Supported dMem 0 = false := by decide
+theorem mem_supported' : SupportedNoMembers dMem' 0 = true := by decide
+theorem mem_disagree' : defaultsAgree dMem' [] 0 = false := by decide
+theorem mem_not_supported' : Supported dMem' 0 = false := by decide
+
+/-- does the default of field `j` of class `i` agree with the definition's? -/
+def dfltAt (i j : Nat) (r : Except GenErr (List GClass)) (es : List DefSpec.ExpClass) : Option Bool :=
+  match r with
+  | .ok gs => (gs[i]?).bind (fun g => (es[i]?).bind (fun e => (g.schema.fields[j]?).bind (fun f =>
+      (e.fields[j]?).map (fun ef => dfltAgrees ef.dflt f))))
+  | .error _ => none
+
+theorem mem_at : dfltAt 1 0 (module dMem [] 0) (DefSpec.classesAt dMem [] 0) = some false := by decide
+theorem mem_at' : dfltAt 1 0 (module dMem' [] 0) (DefSpec.classesAt dMem' [] 0) = some false := by decide
+
+theorem dflt_refute {d : MsgDef} {i j : Nat}
+    (h : dfltAt i j (module d [] 0) (DefSpec.classesAt d [] 0) = some false) :
+    ∃ gs, module d [] 0 = .ok gs ∧
+    ¬ ∀ (i : Nat) (g : GClass) (e : DefSpec.ExpClass), gs[i]? = some g → (DefSpec.classesAt d [] 0)[i]? = some e →
+      ∀ (j : Nat) (f : Field) (ef : DefSpec.ExpField), g.schema.fields[j]? = some f → e.fields[j]? = some ef →
+        dfltAgrees ef.dflt f = true := by
+  cases hm : module d [] 0 with
+  | error e => rw [hm] at h; cases h
+  | ok gs =>
+    refine ⟨gs, rfl, ?_⟩
+    intro H
+    rw [hm] at h
+    simp only [dfltAt, Option.bind_eq_some_iff, Option.map_eq_some_iff] at h
+    obtain ⟨g, hg, e, he, f, hf, ef, hef, hb⟩ := h
+    rw [H i g e hg he j f ef hf hef] at hb
+    cases hb
+
+/-- `module_defaults` is false without `membersOk`: a member that does not parse … -/
+theorem module_defaults_needs_membersOk :
+    ¬ ∀ (d : MsgDef) (b : List (List Nat)) (v : Nat) (gs : List GClass),
+      SupportedNoMembers d v = true → module d b v = .ok gs →
+      ∀ (i : Nat) (g : GClass) (e : DefSpec.ExpClass), gs[i]? = some g → (DefSpec.classesAt d b v)[i]? = some e →
+        ∀ (j : Nat) (f : Field) (ef : DefSpec.ExpField), g.schema.fields[j]? = some f → e.fields[j]? = some ef →
+          dfltAgrees ef.dflt f = true := by
+  intro H
+  obtain ⟨gs, hm, hn⟩ := dflt_refute mem_at
+  exact hn (H dMem [] 0 gs mem_supported hm)
+
+/-- … or a primitive-array member with an error-code name -/
+theorem module_defaults_needs_membersOk' :
+    ¬ ∀ (d : MsgDef) (b : List (List Nat)) (v : Nat) (gs : List GClass),
+      SupportedNoMembers d v = true → module d b v = .ok gs →
+      ∀ (i : Nat) (g : GClass) (e : DefSpec.ExpClass), gs[i]? = some g → (DefSpec.classesAt d b v)[i]? = some e →
+        ∀ (j : Nat) (f : Field) (ef : DefSpec.ExpField), g.schema.fields[j]? = some f → e.fields[j]? = some ef →
+          dfltAgrees ef.dflt f = true := by
+  intro H
+  obtain ⟨gs, hm, hn⟩ := dflt_refute mem_at'
+  exact hn (H dMem' [] 0 gs mem_supported' hm)
+
+end Kio.Gen.CounterCoh
